@@ -205,6 +205,19 @@ func (o *OLVM) Plan(c *Ctx) []hist.TxSpec {
 		out = append(out, o.accessListFailure(c, es[0], es[1])...)
 	case 11, 19:
 		out = append(out, o.failedSandwich(c, es[0], es[1])...)
+	case 12, 20, 28:
+		// two transactions with the same nonce in one block: both pass the mempool check, the second is no
+		// longer valid once the first has executed
+		{
+			to := ethcmn.BytesToAddress(es[1].Addr)
+			first := o.tx(c, es[0], &to, big.NewInt(111), nil, 21000, "first of two transactions with the same nonce")
+			key := c.W.EthKeys[es[0].Addr.String()]
+			n := o.nonce[es[0].Addr.String()] - 1
+			bz := OLVMTx(c, es[0], key, n, &to, big.NewInt(222), nil, 21000, "1000000000", ChainIDOf(c.W), fmt.Sprint(n))
+			second := hist.TxSpec{Kind: "OLVM", Bytes: bz, Note: "second of two transactions with the same nonce (invalid by the time it is delivered)", Signers: []string{es[0].Addr.String()}}
+			second.Meta = map[string]string{"from": es[0].Addr.String(), "nonce": fmt.Sprint(n), "value": "222", "to": keys.Address(to.Bytes()).String(), "data": "", "expect": "fail"}
+			out = append(out, first, second)
+		}
 	case 9, 17:
 		// fill a storage slot ...
 		if a, ok := o.contracts["store"]; ok {
